@@ -363,6 +363,14 @@ def m_option(ex, st, callee, A):
     if not m:
         return None
     fn = m.group(2)
+    if fn == 'as_slice':
+        o = A[0]
+        v = ex.read(st, o.fid, o.place) if isinstance(o, Ref) else o
+        if isinstance(v, Agg) and v.variant == 'None':
+            return Agg('struct', '~vec', None, [])
+        if isinstance(v, Agg) and v.variant == 'Some':
+            return Agg('struct', '~vec', None, [v.fields[0]])
+        return None
     cases = None
     def C():
         return enum_cases(ex, st, A[0])
@@ -541,6 +549,8 @@ def m_misc(ex, st, callee, A):
         # derive-generated (thiserror #[from]) conversion: the target wraps the source value unchanged
         ex.stats['stubbed'].add(f'From-wrapper:{base_type(m.group(1))}<-{base_type(m.group(2))}')
         return Agg('struct', m.group(1).strip(), None, [A[0]], ('from:' + base_type(m.group(2)),))
+    if re.search(r'slice::<impl \[.*\]>::to_vec$', callee) and isinstance(A[0], Agg) and A[0].name == '~vec':
+        return A[0]
     if re.search(r' as (Clone>::clone|ToOwned>::to_owned)$', callee) or re.search(r'clone::impls::<impl Clone for \w+>::clone$', callee):
         v = A[0]
         if isinstance(v, Ref):
@@ -765,7 +775,7 @@ def _is_ok_like(ex, v):
 
 
 def m_iter_hof(ex, st, callee, A):
-    m = re.search(r' as Iterator>::(any|all|try_for_each|count|zip|collect|map)(::<(.*)>)?$', callee)
+    m = re.search(r' as Iterator>::(any|all|try_for_each|count|zip|collect|map|rev|fold)(::<(.*)>)?$', callee)
     if m and A:
         op = m.group(1)
         items, consume = _take_iter(ex, st, A[0])
@@ -773,6 +783,16 @@ def m_iter_hof(ex, st, callee, A):
             return None
         if op == 'count':
             return [([], IntV(z3.IntVal(len(items)), 'usize'), consume)]
+        if op == 'rev':
+            return Agg('struct', '~vec_iter', None, list(reversed(items)))
+        if op == 'fold':
+            clo = A[2]
+
+            def gofold(st2, rest, acc):
+                if not rest:
+                    return acc
+                return ex.call_closure(st2, clo, [acc, rest[0]], then=lambda st3, r: gofold(st3, rest[1:], r))
+            return gofold(st, items, A[1])
         if op == 'zip':
             other, _ = _take_iter(ex, st, A[1])
             if other is None:
@@ -969,7 +989,7 @@ def m_ref_eq(ex, st, callee, A):
 def install(ex):
     for rx, fn in [
         (r'new_uninit$|box_assume_init_into_vec_unsafe::<|Vec::<.*>::(new|push|pop)$|Vec<.*> as Deref(Mut)?>::deref(_mut)?$| as IntoIterator>::into_iter$| as Iterator>::(next$|filter::<)|slice::<impl \[.*\]>::iter$|BTreeMap::<.*>::iter$', m_vec_macro),
-        (r' as Iterator>::(any|all|try_for_each|count|zip|collect|map)(::<.*>)?$|(HashMap|BTreeMap)::<.*>::(contains_key|get|iter|values|keys|is_empty|len)(::<.*>)?$|(HashMap|BTreeMap)<.*> as IntoIterator>::into_iter$', m_iter_hof),
+        (r' as Iterator>::(any|all|try_for_each|count|zip|collect|map|rev|fold)(::<.*>)?$|(HashMap|BTreeMap)::<.*>::(contains_key|get|iter|values|keys|is_empty|len)(::<.*>)?$|(HashMap|BTreeMap)<.*> as IntoIterator>::into_iter$', m_iter_hof),
         (r'<impl [iu](8|16|32|64|128|size)>::\w+$', m_int),
         (r'(PartialOrd|PartialEq|Ord)(<[^>]*>)?( for \w+)?>::\w+$', m_int_cmp),
         (r'PartialOrd(<[^>]*>)?>::(lt|le|gt|ge)$|Ord>::(max|min)$', m_partial_ord),
